@@ -106,6 +106,27 @@ CHECKS.update({
     },
 })
 
+CHECKS.update({
+    "C08": {
+        "technique": "deterministic simulation: baton scheduler over instrumented yield points with seeded preemption points, pool hand-off between tasks; per-operation solo-equivalence oracle; Go race detector made deterministic by hiding the baton hand-offs (RaceDisable) and re-creating sync.Pool's edges",
+        "text": "2-4 tasks share schemas and the pool model; the simulator decides every preemption (at function entries, loop heads, pool calls, callbacks) and which task's freed objects another task receives. Every operation must equal its task's solo result under the same visit orders, uncollected results must not change, schema fingerprints must not change. Half as many worlds run in the -race build with a lean simulator the detector cannot see, so that the detector reports exactly the conflicting accesses the library does not order - in a replayable execution.",
+        "note": REL + " Interleavings are explored at yield-point granularity; the race layer covers unsynchronised accesses between yield points in the executions it observes. sync.Pools inside fmt/encoding are real and may add incidental ordering.",
+        "design": "DESIGN.md §3 C08, §2.7",
+    },
+    "C16": {
+        "technique": "deterministic simulation: simulator-interleaved builder programs of several clients over a shared base schema; after every step every live schema vs. a hand-built equivalent",
+        "text": "2-4 clients run programs of Pick/Omit/Extend/Merge/TestFunc/PostTransform over one base (with spare capacity in its test/transform slices) and over each other's results; the simulator picks the interleaving; after every single builder call every live schema is executed next to a schema written out by hand from the model and must run the same callbacks in the same order and give the same result.",
+        "note": TRUST + "the model of the four helpers (set semantics, later operands win, concatenation for Merge) written from the statement and the helper documentation.",
+        "design": "DESIGN.md §3 C16",
+    },
+    "C19": {
+        "technique": "deterministic simulation: histories (and two concurrent tasks) of executions with destination-mutating PostTransforms; snapshots of inputs and schema-owned values, reflection/unsafe schema fingerprint, first-use vs later-use relation, aliasing probe",
+        "text": "Histories of 2-6 executions (or two scheduled concurrent tasks) on one schema with slice and scalar Defaults, Catch values and OneOf/Contains lists while PostTransforms mutate the destinations they are handed; after every call inputs, harness-side handles on schema-owned values and the schema's deep fingerprint must be unchanged, a repeated call must repeat its result under the same visit orders, and no destination slice may share its backing array with a Default.",
+        "note": REL + " The fingerprint hashes function values by identity only (state captured by closures is observed through the harness-side handles instead).",
+        "design": "DESIGN.md §3 C19",
+    },
+})
+
 NOT_APPLICABLE = {
     "C03": "pure function of (schema options, input): no schedule, history, fault or shared state enters it; DESIGN.md §4",
     "C17": "builder-time semantics, a pure function of the chain of builder calls; nothing nondeterministic or faulty to simulate; DESIGN.md §4",
